@@ -19,7 +19,7 @@ func init() {
 			"distinct_nontrivial = distinct (password class, session kind, negotiation, sasl, tracking) cells among judged cases.",
 		Assumptions: []string{"the SASL secret is a different secret and not the subject of this property"},
 		Plan: func(tier string, seed int64) []Batch {
-			n := 2
+			n := 6
 			if tier == "thorough" {
 				n = 12
 			}
@@ -61,7 +61,7 @@ func c20Password(r interface{ Intn(int) int }) (string, string) {
 }
 
 // c20Session runs one session and returns the log records and whether a PASS line reached the wire.
-func c20Session(c *Ctx, logger *rig.CapLogger, pass, kind string, capn, useSasl, tracking bool) (recs []rig.LogRecord, passOnWire bool, ok bool) {
+func c20Session(c *Ctx, logger *rig.CapLogger, pass, kind string, capn, useSasl, tracking bool, failAt int) (recs []rig.LogRecord, passOnWire bool, ok bool) {
 	logger.Reset()
 	s := NewSession(SessionOpts{Flood: true, Tracking: tracking, Mutate: func(cfg *client.Config) {
 		cfg.Pass = pass
@@ -75,7 +75,7 @@ func c20Session(c *Ctx, logger *rig.CapLogger, pass, kind string, capn, useSasl,
 	case "refused":
 		s.EP.RefuseNext(nil)
 	case "writeerr":
-		s.EP.Prepare(func(mc *rig.MemConn) { mc.FailWrite(1+len(pass)%3, nil) })
+		s.EP.Prepare(func(mc *rig.MemConn) { mc.FailWrite(failAt, nil) })
 	case "eof":
 		s.EP.Prepare(func(mc *rig.MemConn) { mc.SendEOF() })
 	}
@@ -139,7 +139,7 @@ func c20Session(c *Ctx, logger *rig.CapLogger, pass, kind string, capn, useSasl,
 
 func runC20(c *Ctx) {
 	part, parts := c.ArgInt("part", 0), c.ArgInt("parts", 1)
-	total := c.Pick(1200, 60000)
+	total := c.Pick(4000, 100000)
 	per := total / parts
 	logger := rig.NewCapLogger(nil)
 	kinds := []string{"ok", "ok", "refused", "writeerr", "eof", "reconnect"}
@@ -153,17 +153,25 @@ func runC20(c *Ctx) {
 		kind := kinds[r.Intn(len(kinds))]
 		capn, useSasl, tracking := r.Intn(2) == 0, r.Intn(3) == 0, r.Intn(2) == 0
 		c.J.Log("CASE %s kind=%s cap=%v sasl=%v tracking=%v passlen=%d", Case("pw", idx), kind, capn, useSasl, tracking, len(pass))
-		ctl, _, ok := c20Session(c, logger, "", kind, capn, useSasl, tracking)
-		if !ok {
-			return
-		}
+		// control runs with an empty password: the same session (the write fault one line earlier, as there is no
+		// PASS line) and a complete successful one; a password occurring in either log is trivial
+		failAt := 1 + r.Intn(4)
 		trivial := false
-		for _, rec := range ctl {
-			if strings.Contains(rec.Text, pass) {
-				trivial = true
+		for _, ck := range []struct {
+			kind string
+			at   int
+		}{{kind, max(failAt-1, 1)}, {kind, failAt}, {"ok", 0}} {
+			ctl, _, ok := c20Session(c, logger, "", ck.kind, capn, useSasl, tracking, ck.at)
+			if !ok {
+				return
+			}
+			for _, rec := range ctl {
+				if strings.Contains(rec.Text, pass) {
+					trivial = true
+				}
 			}
 		}
-		recs, onWire, ok := c20Session(c, logger, pass, kind, capn, useSasl, tracking)
+		recs, onWire, ok := c20Session(c, logger, pass, kind, capn, useSasl, tracking, failAt)
 		if !ok {
 			return
 		}
